@@ -1,8 +1,8 @@
 CONSTANTS
-  Universe <- FullUniverse
+  Universe <- OneUniverse
   MaxLen = 3
   AnyOrder = FALSE
-  InitMatrix = TRUE
+  InitMatrix = FALSE
   ScriptUniverse = {"preinst", "postinst", "prerm", "postrm", "config"}
   FileNames = {"f1", "f2", "f3"}
   Blobs = {11, 12}
@@ -11,7 +11,7 @@ CONSTANTS
   InfoOptional = FALSE
   NormalizeSlash = TRUE
   Emit = FALSE
-  EmitProbe = FALSE
+  EmitProbe = TRUE
 SPECIFICATION Spec
 INVARIANT AcceptIffWellFormed
 INVARIANT PartsAreCandidates
